@@ -33,7 +33,7 @@ def gen_cases(tier, seed):
         r = random.Random(rng.randrange(1 << 30))
         cases.append({'scenario': ['deadline-sweep', 'deadline-sweep', 'stream-close'][i % 3], 'mode': 'async' if i % 4 == 1 else 'sync',
                       'workers': r.choice([1, 2, 3]), 'victims': r.choice([1, 2, 4]), 'witnesses': r.choice([1, 2]), 'rounds': 3 if tier == 'quick' else 4,
-                      'capacity': r.choice([4, 16, 64]), 'batch': r.choice([0, 0, 3]), 'seed': r.randrange(1 << 30)})
+                      'capacity': r.choice([1, 1, 2, 4, 16, 64]), 'batch': r.choice([0, 0, 3]), 'seed': r.randrange(1 << 30)})
     return cases
 
 
@@ -135,6 +135,13 @@ def run_case(case):
                             k += 1
                             if k >= pos:
                                 break
+                except Exception as e:  # noqa: BLE001
+                    # a saturated small server may legitimately make a stream element wait for room until its timeout
+                    with lock:
+                        if type(e).__name__ == 'ServerBacklogFull' and e.args[1] is not None:
+                            obs['gave_up_waiting_for_room'] = obs.get('gave_up_waiting_for_room', 0) + 1
+                        else:
+                            viol.append({'mech': 'abandon/stream-raised', 'msg': f'stream raised {e!r} at position {k}'})
                 finally:
                     with lock:
                         obs['pending_at_close'] += server.backlog
@@ -152,16 +159,23 @@ def run_case(case):
                 with lock:
                     check_witness(t, y, 'witness')
                 s += 1
+                if case['capacity'] <= 2:
+                    time.sleep(0.002)  # do not monopolise the only slot: waiters are not served in FIFO order
 
         vt = stream_victim if case['scenario'] == 'stream-close' else victim
         vs = [threading.Thread(target=vt, args=(c,), name=f'victim-{c}') for c in range(case['victims'])]
         ws = [threading.Thread(target=witness, args=(100 + c,), name=f'witness-{c}') for c in range(case['witnesses'])]
         for t in vs + ws:
             t.start()
+        t_lim = time.monotonic() + 45
         for t in vs:
-            t.join()
+            t.join(max(0.0, t_lim - time.monotonic()))
+        # stop the witnesses in any case: if a victim is wedged, the busy witnesses would otherwise keep the stacks changing and
+        # the watchdog could not tell a hang from slow progress
         stop.set()
         for t in ws:
+            t.join()
+        for t in vs:
             t.join()
         # afterwards the server must still work
         for s in range(3):
@@ -227,6 +241,11 @@ def run_case(case):
                             k += 1
                             if k >= pos:
                                 break
+                except Exception as e:  # noqa: BLE001
+                    if type(e).__name__ == 'ServerBacklogFull' and e.args[1] is not None:
+                        obs['gave_up_waiting_for_room'] = obs.get('gave_up_waiting_for_room', 0) + 1
+                    else:
+                        viol.append({'mech': 'abandon/stream-raised', 'msg': f'async stream raised {e!r} at position {k}'})
                 finally:
                     obs['pending_at_close'] += server.backlog
                     obs['streams_closed_early'] += 1
@@ -242,12 +261,16 @@ def run_case(case):
                     y = e
                 check_witness(t, y, 'witness')
                 s += 1
+                if case['capacity'] <= 2:
+                    await asyncio.sleep(0.002)
 
         vt = stream_victim if case['scenario'] == 'stream-close' else victim
         ws = [asyncio.ensure_future(witness(100 + c)) for c in range(case['witnesses'])]
-        await asyncio.gather(*[vt(c) for c in range(case['victims'])])
-        stop.set()
+        vs = [asyncio.ensure_future(vt(c)) for c in range(case['victims'])]
+        await asyncio.wait(vs, timeout=45)
+        stop.set()  # see the sync twin
         await asyncio.gather(*ws)
+        await asyncio.gather(*vs)
         for s in range(3):
             t = tok(999, s, sleep=0.0005)
             try:
